@@ -52,12 +52,87 @@ var vxCustomClasses = map[string]cqlspec.Kind{
 	"org.apache.cassandra.db.marshal.UUIDType": cqlspec.UUID, "org.apache.cassandra.db.marshal.BytesType": cqlspec.Blob,
 }
 
+// classes a column of kind custom (option id 0x0000, a class name and nothing else) may name: Cassandra's
+// marshal classes of scalar types (the driver reports those as the scalar type), classes nobody knows, and
+// the bare names of the parametrised marshal classes (still only a name: no element types follow)
+var vxCustomDrawn = []string{
+	"org.apache.cassandra.db.marshal.Int32Type", "org.apache.cassandra.db.marshal.UTF8Type", "org.apache.cassandra.db.marshal.LongType",
+	"org.apache.cassandra.db.marshal.BooleanType", "org.apache.cassandra.db.marshal.UUIDType", "org.apache.cassandra.db.marshal.BytesType",
+	"com.example.cassandra.MyType", "", "org.apache.cassandra.db.marshal.DynamicCompositeType(a=>org.apache.cassandra.db.marshal.UTF8Type)",
+	"org.apache.cassandra.db.marshal.ListType", "org.apache.cassandra.db.marshal.SetType", "org.apache.cassandra.db.marshal.MapType", "org.apache.cassandra.db.marshal.TupleType",
+}
+
+// vxEffType: the type whose encoding the cells of a column carry. For a custom column naming a scalar marshal
+// class that is the scalar; any other custom column has opaque bytes (second result false).
+func vxEffType(ty *cqlspec.Type) (*cqlspec.Type, bool) {
+	if ty.Kind != cqlspec.Custom {
+		return ty, true
+	}
+	if k, ok := vxCustomClasses[ty.Custom]; ok {
+		return cqlspec.Scalar(k), true
+	}
+	return ty, false
+}
+
+// vxEffCell converts the raw cell of a custom column into the value of its effective type.
+func vxEffCell(ty *cqlspec.Type, cell cqlspec.Value, proto int) cqlspec.Value {
+	et, known := vxEffType(ty)
+	if ty.Kind != cqlspec.Custom || !known || cell.Null {
+		return cell
+	}
+	v, err := cqlspec.Decode(et, cell.RawBytes(), proto)
+	if err != nil {
+		return cell
+	}
+	return v
+}
+
+// vxPlainColumns rewrites custom columns as the type their cells carry (blob for a class nobody knows): for
+// checks whose subject is not the column type.
+func vxPlainColumns(r *cqlspec.Response) {
+	for _, m := range []*cqlspec.Metadata{r.Meta, r.ResultMeta} {
+		if m == nil {
+			continue
+		}
+		for ci := range m.Columns {
+			ty := m.Columns[ci].Type
+			if ty.Kind != cqlspec.Custom {
+				continue
+			}
+			et, known := vxEffType(ty)
+			if !known {
+				et = cqlspec.Scalar(cqlspec.Blob)
+			}
+			if m == r.Meta {
+				for _, row := range r.Rows {
+					if ci < len(row) {
+						row[ci] = vxEffCell(ty, row[ci], r.Version)
+					}
+				}
+			}
+			m.Columns[ci].Type = et
+		}
+	}
+}
+
+func vxHasOpaqueColumn(m *cqlspec.Metadata) bool {
+	for _, c := range m.Columns {
+		if _, known := vxEffType(c.Type); !known {
+			return true
+		}
+	}
+	return false
+}
+
 func vxDrawIdent(t *rapid.T, label string) string {
 	return rapid.OneOf(rapid.StringMatching(`[a-z][a-z0-9_]{0,10}`), rapid.StringN(0, 8, -1)).Draw(t, label)
 }
 
 // vxDrawColType draws a column type legal in the given protocol version.
 func vxDrawColType(t *rapid.T, version int) *cqlspec.Type {
+	if rapid.IntRange(0, 11).Draw(t, "customcol") == 0 {
+		return &cqlspec.Type{Kind: cqlspec.Custom, Custom: rapid.SampledFrom(vxCustomDrawn).Draw(t, "class")}
+	}
 	for try := 0; ; try++ {
 		ty := vxDrawType(t, rapid.IntRange(0, 2).Draw(t, "depth"), false)
 		if vxTypeFits(ty, version) {
@@ -237,9 +312,20 @@ func vxDrawResponse(t *rapid.T) *cqlspec.Response {
 		for i := 0; i < nrows; i++ {
 			row := make([]cqlspec.Value, len(r.Meta.Columns))
 			for j, c := range r.Meta.Columns {
-				val := vxDrawValue(t, c.Type, true, v)
-				if !vxDefaultCanHold(c.Type, val) || !cqlspec.Encodable(c.Type, val, v) {
+				et, known := vxEffType(c.Type)
+				var val cqlspec.Value
+				if known {
+					val = vxDrawValue(t, et, true, v)
+				}
+				if !known {
+					val = cqlspec.BytesValue(vxDrawBytes(t, 12)) // opaque bytes
+					if rapid.IntRange(0, 4).Draw(t, "nullcustom") == 0 {
+						val = cqlspec.NullValue()
+					}
+				} else if !vxDefaultCanHold(et, val) || !cqlspec.Encodable(et, val, v) {
 					val = cqlspec.NullValue()
+				} else if c.Type.Kind == cqlspec.Custom && !val.Null {
+					val = cqlspec.BytesValue(cqlspec.Encode(et, val, v)) // the cell carries the scalar's encoding
 				}
 				row[j] = val
 			}
@@ -675,9 +761,27 @@ func vxRowHolders(m *cqlspec.Metadata) []vxDest {
 			}
 			continue
 		}
-		out = append(out, vxDest{col: i, elem: -1, ty: c.Type, ptr: reflect.New(vxDefaultGoType(c.Type))})
+		et, known := vxEffType(c.Type)
+		if !known {
+			// a custom type nobody knows: the driver has no Go type for it; Scan skips a column whose
+			// destination is nil
+			out = append(out, vxDest{col: i, elem: -1, ty: c.Type})
+			continue
+		}
+		out = append(out, vxDest{col: i, elem: -1, ty: et, ptr: reflect.New(vxDefaultGoType(et))})
 	}
 	return out
+}
+
+// vxDestArgs turns the holders into Scan arguments (nil for opaque columns).
+func vxDestArgs(dests []vxDest) []interface{} {
+	args := make([]interface{}, len(dests))
+	for j, d := range dests {
+		if d.ptr.IsValid() {
+			args[j] = d.ptr.Interface()
+		}
+	}
+	return args
 }
 
 func vxCellFor(d vxDest, row []cqlspec.Value) cqlspec.Value {
@@ -819,7 +923,14 @@ func vxConsumeRows(iter *Iter, r *cqlspec.Response, consumer int, k *vstats.Case
 	}
 	cmpDest := func(rowIdx int, dests []vxDest) error {
 		for _, d := range dests {
-			if err := vxCompare(d.ty, vxCellFor(d, r.Rows[rowIdx]), d.ptr.Elem(), fmt.Sprintf("row %d col %d", rowIdx, d.col)); err != nil {
+			if !d.ptr.IsValid() {
+				continue
+			}
+			cell := vxCellFor(d, r.Rows[rowIdx])
+			if d.elem < 0 {
+				cell = vxEffCell(r.Meta.Columns[d.col].Type, cell, r.Version)
+			}
+			if err := vxCompare(d.ty, cell, d.ptr.Elem(), fmt.Sprintf("row %d col %d", rowIdx, d.col)); err != nil {
 				return err
 			}
 		}
@@ -858,7 +969,8 @@ func vxConsumeRows(iter *Iter, r *cqlspec.Response, consumer int, k *vstats.Case
 			if nullAsEmpty(r.Rows[rowIdx][ci], v) {
 				continue
 			}
-			if err := vxCompare(c.Type, r.Rows[rowIdx][ci], reflect.ValueOf(&v).Elem(), fmt.Sprintf("row %d %s", rowIdx, c.Name)); err != nil {
+			et, _ := vxEffType(c.Type)
+			if err := vxCompare(et, vxEffCell(c.Type, r.Rows[rowIdx][ci], r.Version), reflect.ValueOf(&v).Elem(), fmt.Sprintf("row %d %s", rowIdx, c.Name)); err != nil {
 				return err
 			}
 		}
@@ -866,6 +978,14 @@ func vxConsumeRows(iter *Iter, r *cqlspec.Response, consumer int, k *vstats.Case
 			return fmt.Errorf("row %d: map has %d keys, want %d", rowIdx, len(m), want)
 		}
 		return nil
+	}
+	if vxHasOpaqueColumn(r.Meta) {
+		// the driver has no Go type for an unknown custom class: MapScan / SliceMap cannot build a row;
+		// Scan and Scanner skip the column when its destination is nil
+		consumer %= 2
+		if k != nil {
+			k.Class("opaque custom column (scanned with a nil destination)")
+		}
 	}
 	switch consumer {
 	case 0:
@@ -876,10 +996,7 @@ func vxConsumeRows(iter *Iter, r *cqlspec.Response, consumer int, k *vstats.Case
 			if len(r.Rows)%2 == 1 {
 				dests = vxRowHolders(r.Meta)
 			}
-			args := make([]interface{}, len(dests))
-			for j, d := range dests {
-				args[j] = d.ptr.Interface()
-			}
+			args := vxDestArgs(dests)
 			if !iter.Scan(args...) {
 				return fmt.Errorf("Scan returned false at row %d of %d: %v", i, len(r.Rows), iter.Close())
 			}
@@ -901,10 +1018,7 @@ func vxConsumeRows(iter *Iter, r *cqlspec.Response, consumer int, k *vstats.Case
 			if len(r.Rows)%2 == 1 {
 				dests = vxRowHolders(r.Meta)
 			}
-			args := make([]interface{}, len(dests))
-			for j, d := range dests {
-				args[j] = d.ptr.Interface()
-			}
+			args := vxDestArgs(dests)
 			if err := sc.Scan(args...); err != nil {
 				return fmt.Errorf("Scanner.Scan row %d: %v", i, err)
 			}
@@ -940,7 +1054,7 @@ func vxConsumeRows(iter *Iter, r *cqlspec.Response, consumer int, k *vstats.Case
 			m := map[string]interface{}{}
 			mine := map[int]bool{}
 			for j, d := range dests {
-				if (i+j)%2 == 0 {
+				if (i+j)%2 == 0 && d.ptr.IsValid() {
 					name := r.Meta.Columns[d.col].Name
 					if d.elem >= 0 {
 						name = TupleColumnName(name, d.elem)
@@ -956,7 +1070,11 @@ func vxConsumeRows(iter *Iter, r *cqlspec.Response, consumer int, k *vstats.Case
 				if !mine[j] {
 					continue
 				}
-				if err := vxCompare(d.ty, vxCellFor(d, r.Rows[i]), d.ptr.Elem(), fmt.Sprintf("row %d col %d (caller's destination)", i, d.col)); err != nil {
+				cell := vxCellFor(d, r.Rows[i])
+				if d.elem < 0 {
+					cell = vxEffCell(r.Meta.Columns[d.col].Type, cell, r.Version)
+				}
+				if err := vxCompare(d.ty, cell, d.ptr.Elem(), fmt.Sprintf("row %d col %d (caller's destination)", i, d.col)); err != nil {
 					return fmt.Errorf("MapScan (pre-filled): %v", err)
 				}
 			}
